@@ -11,7 +11,7 @@ import zlib
 from simv.model.coerce import (
     ArgError, coerce_argument_values, coerce_variable_values,
 )
-from simv.model.schema import named, is_nn
+from simv.model.schema import named, is_nn, nullable
 
 ROOT = ("<root>",)  # "position" of the whole data
 
@@ -430,14 +430,14 @@ class RefExec:
             n = t.rint(0, k["max_list"])
             if over:
                 n = min(n, 1)
-            elif k.get("huge_list_crc") and inner[1][0] != "L" and self.s.is_leaf(named(inner[1])) and len(path) <= 3 \
-                    and not any(isinstance(x, int) for x in path) and zlib.crc32(repr(path).encode()) % 2 == 0:
+            elif k.get("huge_list_crc") and nullable(inner[1])[0] == "N" and self.s.is_leaf(named(inner[1])) and len(path) <= 3 \
+                    and not any(isinstance(x, int) for x in path) and zlib.crc32(repr(path).encode()) % 3 == 0:
                 # dedicated runs: a position-determined share of the shallow leaf lists has more than 4096 items
                 n = 4097 + zlib.crc32(repr(path).encode()) % 900
                 self.plan.probe("list_longer_than_4096")
-            elif k.get("long_list_pct") and inner[1][0] != "L" and self.s.is_leaf(named(inner[1])) and t.chance(k["long_list_pct"]):
+            elif k.get("long_list_pct") and nullable(inner[1])[0] == "N" and self.s.is_leaf(named(inner[1])) and t.chance(k["long_list_pct"]):
                 # longer than any internal chunk / batch size, or exactly at a power-of-two boundary
-                n = t.choose([256, 255, 512, 1024, 1025, 256, 255, 512, 1024, 1025] + ([4097, 5000] if k.get("huge_list") else [256, 1025])) \
+                n = t.choose([256, 255, 512, 1024, 1025, 256, 255, 512, 1024, 1025] + ([4097, 5000] if (k.get("huge_list") and not any(isinstance(x, int) for x in path)) else [256, 1025])) \
                     if t.chance(25) else 257 + t.draw(80)
                 self.plan.probe("list_longer_than_256")
             elif k.get("mid_list_pct") and inner[1][0] != "L" and len(path) <= 2 and t.chance(k["mid_list_pct"]):
